@@ -154,6 +154,18 @@ package parse
 //@   requires ctx != nil && ctx.BaseParserRuleContext != nil
 //@   assert @store:F.sysl.%.SourceContext [location-is-own-rule-start] ownStart(stored, ctx)
 //@   assert @store:F.sysl.%.SourceContexts [one-location-appended] len(stored) == len(target.SourceContexts) + 1 && ownStart(stored[len(stored)-1], ctx)
+// C04: re-opening never re-initialises. A lazily created per-application map (Types, Endpoints, Views, Attrs, Wrapped)
+// is only ever assigned while it is nil, and an application / endpoint / table entry is only created for a name that
+// has none yet — however many times the application is re-opened, in whichever file.
+//@   assert @store:F.sysl.Application.Types [types-map-created-once] target.Types == nil
+//@   assert @store:F.sysl.Application.Endpoints [endpoints-map-created-once] target.Endpoints == nil
+//@   assert @store:F.sysl.Application.Views [views-map-created-once] target.Views == nil
+//@   assert @store:F.sysl.Application.Attrs [attrs-map-created-once] target.Attrs == nil
+//@   assert @store:F.sysl.Application.Wrapped [wrapped-created-once] target.Wrapped == nil
+//@   assert @store:F.sysl.Endpoint.Attrs [endpoint-attrs-created-once] target.Attrs == nil
+//@   assert @mapupdate:map[string]*sysl.Application [app-created-only-when-absent] !in(mapkey, maptarget)
+//@   assert @mapupdate:map[string]*sysl.Endpoint [endpoint-created-only-when-absent] !in(mapkey, maptarget) || maptarget[mapkey] == nil
+//@   assert @mapupdate:map[string]*sysl.Type [type-created-only-when-absent] !in(mapkey, maptarget)
 
 // At return the REST endpoint just (re)declared carries, as its current location and as the last entry of its
 // location list, the start of this method rule — whatever the verb.
@@ -161,4 +173,6 @@ package parse
 //@   requires ctx != nil && ctx.BaseParserRuleContext != nil
 //@   assert @store:F.sysl.%.SourceContext [location-is-own-rule-start] ownStart(stored, ctx)
 //@   assert @store:F.sysl.%.SourceContexts [one-location-appended] len(stored) == len(target.SourceContexts) + 1 && ownStart(stored[len(stored)-1], ctx)
+//@   assert @store:F.sysl.Endpoint.Attrs [endpoint-attrs-created-once] target.Attrs == nil
+//@   assert @mapupdate:map[string]*sysl.Endpoint [endpoint-created-only-when-absent] !in(mapkey, maptarget) || maptarget[mapkey] == nil
 //@   ensures [endpoint-location-at-return] ownStart(restEndpoint.SourceContext, ctx) && len(restEndpoint.SourceContexts) >= 1 && ownStart(restEndpoint.SourceContexts[len(restEndpoint.SourceContexts)-1], ctx)
